@@ -92,6 +92,13 @@ CONC_STRESS_STREAM = dict(
     rule='free-running stress under the race detector: 12 goroutines x 120 random operations per round',
 )
 
+CONC_REGRESS_STREAM = dict(
+    name='conc-regress', pkg='.', files=['harness/conc/findings/vk_findings_test.go'], test='TestVerifConcRegress$',
+    model=False, seeded=False, replayable=False, timeout='4m', fail_on_rc=True,
+    env=dict(quick=dict(VERIF_REGRESS_BUDGET_MS=1500), thorough=dict(VERIF_REGRESS_BUDGET_MS=15000)),
+    rule='regression tests of the repaired findings F1 (deterministic), F3, F1\', F2 (searches with a time budget)',
+)
+
 PROPS = {
     'C05': dict(streams=[GRAPH_STREAM]),
     'C06': dict(streams=[GRAPH_STREAM]),
@@ -114,7 +121,7 @@ PROPS = {
         "concurrency: the per-request function shares nothing but the provider (the extractor rejects state outside it); "
         "isolation of scoped instances between scopes is C02",
     ]),
-    'C09': dict(streams=[CONC_STREAM, CONC_STRESS_STREAM], generators=[LOCKFACTS_GEN], assumptions=[
+    'C09': dict(streams=[CONC_STREAM, CONC_STRESS_STREAM, CONC_REGRESS_STREAM], generators=[LOCKFACTS_GEN], assumptions=[
         'Go memory model, modelled not verified: every M6 action (one mutex-protected region, one sync/atomic or sync.Map '
         'operation, one channel close/receive, one call into user code) is atomic and the execution is sequentially consistent '
         'at that granularity; data races on fields accessed outside these primitives are only searched for by the -race stream',
